@@ -1867,9 +1867,16 @@ class AstEval:
         kwargs = {}
         for kw_arg in arg.keywords:
             if kw_arg.arg is None:
-                kwargs.update(await self.aeval(kw_arg.value))
+                this_kwargs = await self.aeval(kw_arg.value)
+                if not hasattr(this_kwargs, "keys"):
+                    raise TypeError(f"argument after ** must be a mapping, not {type(this_kwargs).__name__}")
+                this_kwargs = dict(this_kwargs)
             else:
-                kwargs[kw_arg.arg] = await self.aeval(kw_arg.value)
+                this_kwargs = {kw_arg.arg: await self.aeval(kw_arg.value)}
+            for kw_name in this_kwargs:
+                if kw_name in kwargs:
+                    raise TypeError(f"got multiple values for keyword argument '{kw_name}'")
+            kwargs.update(this_kwargs)
         #
         # try to deduce function name, although this only works in simple cases
         #
